@@ -173,6 +173,10 @@ type Explorer struct {
 	MaxDepth int
 	// NoDescend: callees not to enter (treated as opaque).
 	NoDescend func(fn *ssa.Function) bool
+	// TrackPhi: remember along each path which edge every (non-loop) phi was entered through, and hand rules frames in
+	// which those phis denote the value of that edge: provenance terms asked for on a path describe that path, not the
+	// merge of all paths (a refactoring that merges two branches into one transfer changes nothing).
+	TrackPhi bool
 }
 
 func NewExplorer(w *World, tm *Terms, r Rule) *Explorer {
@@ -315,6 +319,9 @@ func (a *act) block(b, pred *ssa.BasicBlock, e env, st uint64) {
 		}
 		for i, ph := range phis {
 			e = e.set(x.key(ph, 0), vals[i])
+			if x.TrackPhi && pi >= 0 && trackablePhi(a.fr.Fn, ph) {
+				e = e.set(x.key(ph, 7), Int(int64(pi)))
+			}
 		}
 		// loop entry
 		fi := fnInfo(a.fr.Fn)
@@ -348,7 +355,7 @@ func (a *act) instrs(b *ssa.BasicBlock, from int, e env, st uint64) {
 		if _, isPhi := in.(*ssa.Phi); isPhi {
 			continue
 		}
-		st = x.Rule.OnInstr(x, a.fr, in, st)
+		st = x.Rule.OnInstr(x, a.pfr(e), in, st)
 		switch v := in.(type) {
 		case *ssa.Store:
 			if al, ok := v.Addr.(*ssa.Alloc); ok {
@@ -369,6 +376,9 @@ func (a *act) instrs(b *ssa.BasicBlock, from int, e env, st uint64) {
 					continue
 				}
 				ne := e
+				if x.TrackPhi && br.ret != nil {
+					ne = ne.set(x.key(v, 7), Int(int64(br.ret.Block().Index)))
+				}
 				if len(br.vals) == 1 {
 					ne = ne.set(x.key(v, 0), br.vals[0])
 				} else {
@@ -422,6 +432,7 @@ type callBranch struct {
 	vals     []AV
 	st       uint64
 	panicked bool
+	ret      *ssa.Return // the callee's return this branch came out of (repository callees)
 }
 
 // resolveFunc follows a function-typed value to the repository function it denotes.
@@ -471,7 +482,7 @@ func (a *act) call(c *ssa.Call, e env, st uint64) []callBranch {
 		// dynamic call through a function value
 		if fn, mc, at := x.resolveFunc(a.fr, cc.Value); fn != nil && fn.Blocks != nil && x.W.isRepoPkg(pkgOf(fn)) {
 			callee = fn
-			cfr = x.TM.Enter(a.fr, c, fn)
+			cfr = x.TM.Enter(a.pfr(e), c, fn)
 			if mc != nil {
 				cfr.Closure, cfr.ClosureFrame = mc, at
 			}
@@ -479,7 +490,7 @@ func (a *act) call(c *ssa.Call, e env, st uint64) []callBranch {
 	}
 	if callee != nil && a.fr.depth < x.MaxDepth && !a.fr.inChain(callee) && (x.NoDescend == nil || !x.NoDescend(callee)) {
 		if cfr == nil {
-			cfr = x.TM.Enter(a.fr, c, callee)
+			cfr = x.TM.Enter(a.pfr(e), c, callee)
 		}
 		var args []AV
 		if cc.IsInvoke() {
@@ -494,7 +505,8 @@ func (a *act) call(c *ssa.Call, e env, st uint64) []callBranch {
 			if o.Kind == ExitPanic {
 				res = append(res, callBranch{st: o.St, panicked: true})
 			} else {
-				res = append(res, callBranch{vals: o.Rets, st: o.St})
+				rt, _ := o.Instr.(*ssa.Return)
+				res = append(res, callBranch{vals: o.Rets, st: o.St, ret: rt})
 			}
 		}
 		return res
@@ -737,4 +749,48 @@ func (a *act) eval(e env, v ssa.Value) AV {
 		return NonNil
 	}
 	return x.Rule.ValueOf(x, a.fr, v)
+}
+
+// trackablePhi: phis whose incoming edge is worth remembering — aggregate / pointer values outside loop headers
+// (numbers, booleans, strings and errors are handled by the abstract values; loop-carried values stay merged).
+func trackablePhi(fn *ssa.Function, ph *ssa.Phi) bool {
+	if _, basic := ph.Type().Underlying().(*types.Basic); basic || isErrorType(ph.Type()) {
+		return false
+	}
+	for _, l := range fnInfo(fn).Loops {
+		if l.Header == ph.Block() {
+			return false
+		}
+	}
+	return true
+}
+
+// pfr is the activation's frame with the phi choices made on the path so far (the plain frame when nothing is tracked).
+func (a *act) pfr(e env) *Frame {
+	if !a.x.TrackPhi {
+		return a.fr
+	}
+	var sel map[*ssa.Phi]int
+	var rsel map[*ssa.Call]int
+	for _, b := range a.fr.Fn.Blocks {
+		for _, in := range b.Instrs {
+			switch y := in.(type) {
+			case *ssa.Phi:
+				if v, ok := e.get(a.x.key(y, 7)); ok && v.K == avInt {
+					if sel == nil {
+						sel = map[*ssa.Phi]int{}
+					}
+					sel[y] = int(v.N)
+				}
+			case *ssa.Call:
+				if v, ok := e.get(a.x.key(y, 7)); ok && v.K == avInt {
+					if rsel == nil {
+						rsel = map[*ssa.Call]int{}
+					}
+					rsel[y] = int(v.N)
+				}
+			}
+		}
+	}
+	return a.x.TM.SelFrame(a.fr, sel, rsel)
 }
